@@ -159,4 +159,42 @@ for (pid, mut), c in sorted(conf4.items()):
             meta['rebased'] = prev['rebased']
     json.dump(meta, open(old, 'w'), indent=1)
     n += 1
+# ROUND5: third batch (told all known changes of the property; asked for different kinds, possibly hidden inside a behaviour-preserving refactor)
+conf5 = {}
+if os.path.exists('/tmp/confirm5_all.log'):
+    for l in open('/tmp/confirm5_all.log'):
+        if l.startswith('{'):
+            d = json.loads(l)
+            conf5[(d['id'], d['mut'])] = d
+for (pid, mut), c in sorted(conf5.items()):
+    ok = c['applies'] == 'yes' and c['suite_with_change'] == 'pass' and c['demo_with_change'] == 'fail' and c['demo_without_change'] == 'pass'
+    if not ok:
+        print('skipping (not confirmed):', pid, mut, c)
+        continue
+    sid = '%s-r5%s' % (pid, mut[-1])
+    dst = os.path.join(V, 'seeded', sid)
+    os.makedirs(dst, exist_ok=True)
+    src = '/tmp/mut5/%s.out' % pid
+    if os.path.exists(os.path.join(dst, 'patch.orig.diff')):
+        shutil.copy(os.path.join(src, mut + '.diff'), os.path.join(dst, 'patch.orig.diff'))      # rebased onto a later /repo HEAD: patch.diff stays
+    else:
+        shutil.copy(os.path.join(src, mut + '.diff'), os.path.join(dst, 'patch.diff'))
+    shutil.copy(os.path.join(src, mut + '_demo.rs'), os.path.join(dst, 'demo.rs'))
+    if os.path.exists(os.path.join(src, 'notes.md')):
+        shutil.copy(os.path.join(src, 'notes.md'), os.path.join(dst, 'author_notes.md'))
+    meta = {'id': sid, 'breaks_property': pid, 'summary': needs.get(sid, {}).get('summary', ''), 'needs_to_manifest': needs.get(sid, {}).get('needs', ''),
+            'written_by': 'independent sub-agent (fifth round: told every change already known for the property, asked for a SELF-CONSISTENT change (prover and verifier changed together so that the library still accepts its own proofs)), given only the property text and a scratch worktree',
+            'confirmed_here': {'how': 'MUTDIR=/tmp/mut5 tools/confirm_seeded.sh %s %s (scratch worktree of /repo HEAD, removed afterwards)' % (pid, mut),
+                               'patch_applies_to_repo_head': True, 'existing_suite_with_change': 'pass (26 unit + 4 integration + 1 doc test)',
+                               'demo_with_change': 'fails', 'demo_without_change': 'passes'},
+            'demo': 'demo.rs is an integration test: copy to /repo/tests/ and run cargo test --offline --test <name>'}
+    old = os.path.join(dst, 'meta.json')
+    if os.path.exists(old):
+        prev = json.load(open(old))
+        if 'detected_by' in prev:
+            meta['detected_by'] = prev['detected_by']
+        if 'rebased' in prev:
+            meta['rebased'] = prev['rebased']
+    json.dump(meta, open(old, 'w'), indent=1)
+    n += 1
 print(n, 'seeded changes assembled')
